@@ -566,13 +566,11 @@ func (ev *Evaluator) evalPathStep(step jast.Node, data Value, env *Env, last boo
 	}
 	_, isCons := step.(*jast.Array)
 	// (what an array constructor makes is one item of the results: a unit)
+	// (nor is the sequence a name selects from an array item: its only item can
+	// be an array in its own right)
 	if last && len(results) == 1 && !isCons {
-		r0 := results[0]
-		if sq, ok := r0.(*Seq); ok {
-			r0 = sq.collapse()
-		}
-		if isArray(r0) {
-			return r0, nil
+		if _, isSeq := results[0].(*Seq); !isSeq && isArray(results[0]) {
+			return results[0], nil
 		}
 	}
 	s := &Seq{}
@@ -609,6 +607,11 @@ func (ev *Evaluator) evalPred(n *jast.Pred, in Value, env *Env) (Value, *Err) {
 			return Undef, nil
 		}
 		items = arr
+	}
+	// a keep-array marker before an order-by that is filtered here belongs to
+	// the path as a whole
+	if keepsArrays(n.X) {
+		return items, nil
 	}
 	return normalizeArray(items), nil
 }
@@ -733,6 +736,8 @@ func keepsArrays(n jast.Node) bool {
 	case *jast.Path:
 		return n.Keep || len(n.Steps) > 0 && keepsArrays(n.Steps[0])
 	case *jast.Sort:
+		return keepsArrays(n.X)
+	case *jast.Pred:
 		return keepsArrays(n.X)
 	}
 	return false
